@@ -126,7 +126,7 @@ Advance(d) == AdvanceOK(d) /\ now' = now + d /\ UNCHANGED <<slots, tip, idx>>
 TakeBatch(ts, key, max, adm) ==
     /\ adm \subseteq ts
     /\ \A s \in Held(key) : s.t \notin ts
-    /\ Cardinality(Held(key)) + Cardinality(adm) <= max
+    /\ (adm # {}) => Cardinality(Held(key)) + Cardinality(adm) <= max       \* (a lowered limit evicts nobody: T6)
     /\ (adm # ts) => Cardinality(Held(key)) + Cardinality(adm) >= max
     /\ slots' = slots \cup {[k |-> key, t |-> t, dl |-> now + Ttl] : t \in adm}
     /\ tip' = [t \in DOMAIN tip \cup adm |-> IF t \in adm THEN key ELSE tip[t]]
